@@ -356,7 +356,9 @@ pub fn kv_spec(ops: &[Value]) -> Vec<String> {
             },
             "l" => {
                 let ext = o[1].as_str().unwrap();
-                let v: Vec<String> = m.keys().filter(|k| k.ends_with(ext)).map(|k| k.strip_suffix(ext).unwrap().to_string()).collect();
+                let mut v: Vec<String> = m.keys().filter(|k| k.ends_with(ext)).map(|k| k.strip_suffix(ext).unwrap().to_string()).collect();
+                // the answer is a set; both sides sort the stripped names
+                v.sort();
                 js(&json!(v))
             }
             "reopen" => "ok".to_string(),
@@ -475,7 +477,7 @@ fn rev_chain(r: &mut Rng, len: usize) -> Vec<String> {
 }
 
 fn malformed(r: &mut Rng) -> String {
-    let parts = ["1", "2", "10", "007", "-", "_", "a", "b", "Z", "9f", " ", "--", "__", "x-", "-y", "12-ab_cd", ".", "#", "3-d_1"];
+    let parts = ["1", "2", "10", "007", "-", "_", "a", "b", "Z", "9f", " ", "--", "__", "x-", "-y", "12-ab_cd", ".", "#", "3-d_1", "4294967295", "4294967296", "99999999999999999999"];
     let n = 1 + r.below(6);
     (0..n).map(|_| *r.pick(&parts)).collect()
 }
@@ -735,6 +737,13 @@ pub fn oracle(req: &Value) -> Vec<(String, String)> {
     let a = req.as_array().unwrap();
     match a[0].as_str().unwrap() {
         "rev.parse" => {
+            // parsing any text returns (a revision or an error): it never aborts
+            if catch_unwind(AssertUnwindSafe(|| parse_rev(a[1].as_str().unwrap()).is_ok())).is_err() {
+                fails.push(("C08".into(), format!("parsing the identifier {} aborts", a[1].as_str().unwrap())));
+                fails.push(("C10".into(), format!("parsing the identifier {} aborts", a[1].as_str().unwrap())));
+                fails.push(("C19".into(), format!("parsing the identifier {} aborts", a[1].as_str().unwrap())));
+                return fails;
+            }
             // print/parse identity on whatever parses (system-produced strings are the domain)
             if let Ok(r) = parse_rev(a[1].as_str().unwrap()) {
                 let s = r.to_string();
@@ -795,6 +804,15 @@ pub fn oracle(req: &Value) -> Vec<(String, String)> {
                         .iter()
                         .map(|(r, e)| (r.to_string(), e.get_parent().as_ref().map(|p| p.to_string()), e.is_staging()))
                         .collect();
+                    // (the rule is about identifiers the system produces: malformed ones such as `1-a_b`, a creation
+                    // revision with a tail, print alike and are told apart only by equality)
+                    let all_system = a[1].as_array().unwrap().iter().all(|o| {
+                        let o = o.as_array().unwrap();
+                        o.len() < 3 || (is_system_rev(o[1].as_str().unwrap_or("")) && o[2].as_str().map(is_system_rev).unwrap_or(true))
+                    });
+                    if !all_system {
+                        continue;
+                    }
                     let (el, ew) = crate::sim::independent_leafs(&dump);
                     let mut ls = leafs.clone();
                     ls.sort();
@@ -943,6 +961,11 @@ pub fn oracle(req: &Value) -> Vec<(String, String)> {
             // implementation-side: every indexed slice hashes to its digest
             let bytes = hex::decode(a[1].as_str().unwrap()).unwrap();
             if let Ok(Value::Array(objs)) = serde_json::from_slice::<Value>(&bytes) {
+                // only packs as the library writes them (canonical text): the scanner hashes the stored slice,
+                // this oracle the re-serialised object
+                if js(&Value::from(objs.clone())).as_bytes() != &bytes[..] {
+                    return fails;
+                }
                 let name = digest_bytes(&bytes);
                 let st = SimStore::new();
                 st.put_raw(&(name.clone() + ".pack"), bytes.clone());
@@ -977,20 +1000,42 @@ fn is_system_rev(s: &str) -> bool {
     (idx <= 1 && parts.len() == 1 && alnum(parts[0])) || (idx > 1 && parts.len() == 2 && alnum(parts[0]) && alnum(parts[1]))
 }
 
-/// The document `read` is expected to return: identifiers added to every tracked object
+/// The document `read` is expected to return: identifiers added to every tracked object.  A tracked object
+/// (the root, a flattened object, an element of a flattened array) that carries no `_id` is given the one the
+/// library derives: `√` for the root, otherwise the SHA-256 of the concatenated path (identifiers of the
+/// enclosing objects and flattened keys), as `utils::generate_identifier` does.
 pub fn add_ids(v: &Value, is_root: bool) -> Value {
+    let _ = is_root;
+    add_ids_path(v, &[])
+}
+
+fn add_ids_path(v: &Value, path: &[String]) -> Value {
     match v {
         Value::Object(o) => {
+            let uuid = match o.get("_id").and_then(|x| x.as_str()) {
+                Some(s) => s.to_string(),
+                None => {
+                    if path.is_empty() {
+                        "\u{221A}".to_string()
+                    } else {
+                        digest_string(&path.join(""))
+                    }
+                }
+            };
+            let mut fpath = path.to_vec();
+            fpath.push(uuid.clone());
             let mut m = Map::new();
             for (k, c) in o {
                 if k.ends_with(FLAT) {
-                    m.insert(k.clone(), add_ids_flat(c));
+                    let mut kp = fpath.clone();
+                    kp.push(k.clone());
+                    m.insert(k.clone(), add_ids_flat(c, &kp));
                 } else {
                     m.insert(k.clone(), c.clone());
                 }
             }
-            if is_root && !m.contains_key("_id") {
-                m.insert("_id".into(), Value::from("\u{221A}"));
+            if !m.contains_key("_id") {
+                m.insert("_id".into(), Value::from(uuid));
             }
             Value::from(m)
         }
@@ -998,10 +1043,10 @@ pub fn add_ids(v: &Value, is_root: bool) -> Value {
     }
 }
 
-fn add_ids_flat(v: &Value) -> Value {
+fn add_ids_flat(v: &Value, path: &[String]) -> Value {
     match v {
-        Value::Object(_) => add_ids(v, false),
-        Value::Array(a) => Value::from(a.iter().map(add_ids_flat).collect::<Vec<_>>()),
+        Value::Object(_) => add_ids_path(v, path),
+        Value::Array(a) => Value::from(a.iter().map(|x| add_ids_flat(x, path)).collect::<Vec<_>>()),
         _ => v.clone(),
     }
 }
